@@ -15,9 +15,15 @@ Definition guard_ok (gd : guard) (t : nat) : bool :=
   | GTimeEq k => Nat.eqb t k | GTimeNe k => negb (Nat.eqb t k)
   end.
 
+(* an endpoint of a run-time DiscreteRange: a rational computed from the simulation state,
+   c + kt * currentTime + kx * x   (x = the last value drawn) *)
+Record bnd := mkBnd { bc : Q; bkt : Q; bkx : Q }.
+
 Inductive stmt :=
 | STake (a : Z)                           (* take a : one step *)
-| SDrawTake (lo hi base : Z)              (* x = DiscreteRange(lo, hi); take base + x *)
+| SDrawTake (lo hi : bnd) (base : Z)      (* x = DiscreteRange(lo, hi); take base + x   (any rational endpoints) *)
+| SWRangeTake (lo : Z) (ws : list Q) (base : Z)
+                                          (* x = DiscreteRange(lo, lo+n-1, weights=ws); take base + x *)
 | SWDrawTake (ws : list Q) (base : Z)     (* x = Options({0: w0, 1: w1, ...}); take base + x *)
 | SRequire (p : Q) (thr : Z)              (* require[p] x > thr   (x = the last value drawn) *)
 | SDo (b : nat)
@@ -63,6 +69,9 @@ Fixpoint number {X : Type} (k : nat) (l : list X) : list (nat * X) :=
 
 Record state := mkState { time : nat; lastx : Z; log : list (nat * Z) }.   (* log: (step, action), newest first *)
 
+Definition bval (b : bnd) (s : state) : Q :=
+  bc b + bkt b * inject_Z (Z.of_nat (time s)) + bkx b * inject_Z (lastx s).
+
 Section Exec.
   Variable P : program.
   Variable maxSteps : nat.
@@ -92,9 +101,10 @@ Section Exec.
               let step a x := mkState (S (time s)) x ((time s, a) :: log s) in
               match st with
               | STake a => exec f rest (step a (lastx s))
-              | SDrawTake lo hi base =>
-                  if Z.ltb hi lo then Rej
-                  else bind (randint_tree lo hi) (fun x => exec f rest (step (base + x)%Z x))
+              | SDrawTake lo hi base =>        (* ceil(lo) .. floor(hi); empty: RejectionException *)
+                  bind (ndrange_tree (bval lo s) (bval hi s)) (fun x => exec f rest (step (base + x)%Z x))
+              | SWRangeTake lo ws base =>
+                  bind (wrange_tree lo ws) (fun x => exec f rest (step (base + x)%Z x))
               | SWDrawTake ws base =>
                   bind (options_tree ws) (fun k => let x := Z.of_nat k in exec f rest (step (base + x)%Z x))
               | SRequire p thr =>
